@@ -73,6 +73,8 @@ def _dtype_cls(spec):
         return S.float64
     if isinstance(spec, type):
         if issubclass(spec, generic):
+            if getattr(spec, "_fp", False):
+                return S.float64
             if spec is S.pyint:
                 return S.int64
             if spec is S.pyfloat:
@@ -135,6 +137,8 @@ def _cstrides(shape):
 
 
 def _as_index(k):
+    if getattr(type(k), "_fp", False):
+        return k.__index__()
     if isinstance(k, bool):
         raise ShimUnsupported("bool scalar index")
     if isinstance(k, int):
